@@ -95,3 +95,27 @@ def render_bobbuild(proj):
 
 def proj_key(proj):
     return json.dumps(proj, sort_keys=True)
+
+
+def render_artifacts(proj, archive_path):
+    """proj = the per-workspace `proj` record of specs/BobArtifacts.tla. app is fingerprinted by a
+    script that prints the harness-controlled file $VF_CTL/hostfp (emulated host fingerprint)."""
+    files = {"config.yaml": CONFIG}
+    d = "environment:\n  V: \"%s\"\nwhitelist: [VF_CTL]\n" % proj["V"]
+    if archive_path:
+        d += "archive:\n  backend: file\n  path: \"%s\"\n  flags: [download, upload]\n" % archive_path
+    files["default.yaml"] = d
+    lib = ["checkoutSCM:", "  scm: import", "  url: src/lib", "  prune: True",
+           "buildScript: " + yaml_block(build_script("lib", 0, [])),
+           "packageScript: " + yaml_block(package_script("lib", 0))]
+    files["recipes/lib.yaml"] = "\n".join(lib) + "\n"
+    app = ["root: true", "depends: [lib]",
+           "checkoutSCM:", "  scm: import", "  url: src/app", "  prune: True",
+           "buildVars: [V]",
+           "fingerprintIf: True",
+           "fingerprintScript: " + yaml_block('cat "$VF_CTL/hostfp"'),
+           "buildScript: " + yaml_block(build_script("app", proj["bver"], ["V"], extra='echo "host=$(cat "$VF_CTL/hostfp")"')),
+           "packageScript: " + yaml_block(package_script("app", proj["pver"]))]
+    files["recipes/app.yaml"] = "\n".join(app) + "\n"
+    srcs = {"src/app": src_files("app", 0), "src/lib": src_files("lib", proj["srcl"])}
+    return files, srcs
